@@ -262,6 +262,8 @@ def run(tier):
     equations(rep, quick)
     rep.phase("regeneration")
     regeneration(rep, quick)
+    rep.phase("concurrent processes")
+    concurrent(rep, quick)
     rep.rule = ("equation level: every declared residual / initialiser / iterative initialiser / service string of every shipped "
                 "model x lattice points (TLC-enumerated levels, 4 devices x rounds); non-trivial = item with at least one defined "
                 "point.  Protocol level: operation sequences over {edit equation / initialiser / iterative initialiser / service, prepare, System() with "
@@ -269,6 +271,41 @@ def run(tier):
                 "length 5, one 20-step history; non-trivial = contains an edit, corruption or deletion"
                 % ("a seeded sample of 24" if quick else "360"))
     return rep.finish()
+
+
+def concurrent(rep, quick):
+    """CodegenConc.tla: several processes creating a System over one directory of generated code (one action per step of
+    undill / prepare / _finalize_pycode).  Model-checked for parallel workers of one checkout (RunsOwnModel, FileWholeAtEnd,
+    AllFinish hold) and for two checkouts with different definitions sharing the directory (TLC must find the schedule in
+    which a process imports the other's code after writing its own); both schedules are replayed on the real code with a
+    second process started at the first one's point between writing and importing again."""
+    from .. import codegendrv
+    r1 = run_tlc("MC_CodegenConc", "MC_CodegenConc_same.cfg", timeout=900)
+    rep.add_tlc(r1, "MC_CodegenConc (three workers, one model definition: RunsOwnModel, FileWholeAtEnd, AllFinish)")
+    if r1["machinery_ok"] and r1["violation"]:
+        rep.note("design-level counterexample in MC_CodegenConc_same: %s" % r1["violation"])
+    r2 = run_tlc("MC_CodegenConc", "MC_CodegenConc_trees.cfg", timeout=900)
+    rep.add_tlc(r2, "MC_CodegenConc (two definitions sharing one directory: RunsOwnModel must be violated - design hazard)")
+    rep.extra["concurrent_design"] = dict(same_definition_holds=bool(r1["machinery_ok"] and not r1["violation"]),
+                                          two_definitions_counterexample=bool(r2["violation"]))
+    tasks = [dict(sid="conc[three workers of one checkout: B between A's write and reload]", same=True),
+             dict(sid="conc[two definitions sharing one directory of generated code]", same=False)]
+    res = run_tasks("vh.codegendrv:concurrent", tasks, nproc=2, timeout=2400)
+    for t, x in zip(tasks, res):
+        rep.count()
+        if x["status"] != "ok" or x["result"].get("setup_error"):
+            rep.note("%s not observed: %s" % (t["sid"], x["status"] if x["status"] != "ok" else x["result"]["setup_error"]))
+            continue
+        o = x["result"]
+        rep.traces += 1
+        rep.nontriv(t["sid"])
+        rep.extra.setdefault("concurrent_replay", {})[t["sid"]] = o
+        predicted = "own_a" if t["same"] else "b"              # what the specification's schedule ends with
+        if o["a_runs"] != predicted:
+            rep.note("model drift: CodegenConc predicts that A runs %s in %s, the code gave %s" % (predicted, t["sid"], o["a_runs"]))
+        if o["a_runs"] not in ("own_a", "raised"):
+            rep.violation("RunsOwnModel:%s" % t["sid"], "a System that came up without an error runs generated code of another model definition "
+                          "(%s): %s" % (o["a_runs"], json.dumps(o)), replay=dict(scenario=t, outcome=o))
 
 
 def replay(path):
